@@ -43,6 +43,10 @@ API_ROLE = {
 }
 EXPLANATION += " (R5) the CLI passes allow_changes and the API's pre-flight decides; required lists are truthful and segmentation agrees with the API (evaluated); (R6) library handlers that name arithmetic exceptions raise on every path (only the CLI traps floating-point errors); (R7) no set iteration order reaches a written file."
 TECHNIQUE += '; set-iteration-order dataflow rule; all-paths-raise on arithmetic handlers'
+# --- metadata added for batch 7
+TECHNIQUE += '; argparse table comparison; guard matrix borrowed for the pre-flight clause'
+EXPLANATION += " Added: (R8) the converter's argument table is the documented one (options, positionals, defaults, actions) and the parsed values reach convert() as parsed, the loaded object is not edited before it is written; (R9) what a writer cannot store is refused by its prepare_dump -- before the API opens (truncates) the output file -- not by its dump_one (guard matrix C08-R5)."
+# --- end metadata batch 7
 
 
 def _polarity_of_many(test, param="many"):
